@@ -297,6 +297,7 @@ func checkC13(c *Ctx) {
 	c13Escapes(c)
 	c13Position(c)
 	c13Ordinal(c)
+	c13Cardinal(c)
 	c13Decimal(c)
 }
 
@@ -806,6 +807,9 @@ var evalLocalDefs = map[types.Object]ast.Expr{}
 // evalVarKey: when the quantity the guards range over is not a local but an expression (value.IntegerValue), its text.
 var evalVarKey string
 
+// evalLeaf, when set, gives the value of a variable or field the guards mention (n: the quantity ranged over).
+var evalLeaf func(e ast.Expr, n int64) (int64, bool)
+
 func evalIntExpr(info *types.Info, e ast.Expr, v types.Object, n int64) (int64, bool, bool) {
 	// returns (int value, bool value, ok) — bool value meaningful for boolean expressions
 	e = unparen(e)
@@ -820,6 +824,14 @@ func evalIntExpr(info *types.Info, e ast.Expr, v types.Object, n int64) (int64, 
 	}
 	if evalVarKey != "" && exprStr(e) == evalVarKey {
 		return n, false, true
+	}
+	if evalLeaf != nil {
+		switch e.(type) {
+		case *ast.Ident, *ast.SelectorExpr:
+			if x, ok := evalLeaf(e, n); ok {
+				return x, false, true
+			}
+		}
 	}
 	switch x := e.(type) {
 	case *ast.Ident:
@@ -956,18 +968,79 @@ func c13Ordinal(c *Ctx) {
 				cat  string
 			}
 			var arms []catArm
+			def := ""
+			var catVar types.Object
 			for _, ba := range branchArms {
-				if len(ba.conds) != 1 || len(ba.body) != 1 {
+				if len(ba.conds) > 1 || len(ba.body) != 1 {
 					return true
 				}
 				as, ok := ba.body[0].(*ast.AssignStmt)
-				if !ok || len(as.Rhs) != 1 {
+				if !ok || len(as.Rhs) != 1 || len(as.Lhs) != 1 || identOf(as.Lhs[0]) == nil {
 					return true
+				}
+				if catVar == nil {
+					catVar = info.Uses[identOf(as.Lhs[0])]
+				}
+				if catVar == nil || info.Uses[identOf(as.Lhs[0])] != catVar {
+					return true
+				}
+				if len(ba.conds) == 0 {
+					// the default arm (the final else)
+					def = constVal(as.Rhs[0])
+					continue
 				}
 				arms = append(arms, catArm{ba.conds[0], constVal(as.Rhs[0])})
 			}
-			// the default category: the value assigned before the switch
-			def := "other"
+			if len(arms) < 3 {
+				return true
+			}
+			// without a default arm, the default category is the value the variable holds when the switch is reached: its
+			// latest assignment before the switch, at the same nesting level
+			if def == "" {
+				def = "?"
+				if list := stmtListOf(w, sw); list != nil {
+					for _, st := range list {
+						if st.End() > sw.Pos() {
+							break
+						}
+						switch a := st.(type) {
+						case *ast.AssignStmt:
+							for i, l := range a.Lhs {
+								if id := identOf(l); id != nil && (info.Defs[id] == catVar || info.Uses[id] == catVar) && len(a.Rhs) == len(a.Lhs) {
+									def = constVal(a.Rhs[i])
+								}
+							}
+						case *ast.DeclStmt:
+							if gd, ok := a.Decl.(*ast.GenDecl); ok {
+								for _, sp := range gd.Specs {
+									if vs, ok := sp.(*ast.ValueSpec); ok {
+										for i, nm := range vs.Names {
+											if info.Defs[nm] == catVar {
+												def = "?"
+												if i < len(vs.Values) {
+													def = constVal(vs.Values[i])
+												}
+											}
+										}
+									}
+								}
+							}
+						default:
+							// assigned inside a nested statement before the switch: not a single known value
+							walkNoLit(st, func(n ast.Node) bool {
+								if a, ok := n.(*ast.AssignStmt); ok {
+									for _, l := range a.Lhs {
+										if id := identOf(l); id != nil && info.Uses[id] == catVar {
+											def = "?"
+										}
+									}
+								}
+								return true
+							})
+						}
+					}
+				}
+			}
 			checked++
 			c.fn(f)
 			var wrong []string
@@ -1177,4 +1250,194 @@ func fieldColour(fld *types.Var, memo map[ssa.Value]colour, depth int) colour {
 func isTypeConversionCall(info *types.Info, call *ast.CallExpr) bool {
 	tv, ok := info.Types[call.Fun]
 	return ok && tv.IsType()
+}
+
+// stmtListOf: the statement list (block, case or comm clause body) that directly contains the statement.
+func stmtListOf(w *World, st ast.Node) []ast.Stmt {
+	switch p := w.parent[st].(type) {
+	case *ast.BlockStmt:
+		return p.List
+	case *ast.CaseClause:
+		return p.Body
+	case *ast.CommClause:
+		return p.Body
+	case *ast.LabeledStmt:
+		return stmtListOf(w, p)
+	}
+	return nil
+}
+
+// c13Cardinal: the cardinal ("plural") category of English: "one" for the integer 1, "other" for every other integer.
+// The processor that assigns the constant "one" without any remainder arithmetic is the cardinal one; the conjunction of
+// the conditions under which that assignment is reached — evaluated with the value's type fixed to integer and the
+// integer ranging over 0…999 — must hold for 1 and for 1 only, and the variable must hold "other" before.
+func c13Cardinal(c *Ctx) {
+	w := c.W
+	mp := w.Pkg("markup")
+	info := mp.TypesInfo
+	constStr := func(e ast.Expr) (string, bool) {
+		if tv, ok := info.Types[e]; ok && tv.Value != nil && tv.Value.Kind() == constant.String {
+			return constant.StringVal(tv.Value), true
+		}
+		return "", false
+	}
+	var intType int64 = -1
+	if o, ok := mp.Types.Scope().Lookup("ValueTypeInteger").(*types.Const); ok {
+		intType, _ = constant.Int64Val(o.Val())
+	}
+	found := 0
+	for _, f := range w.FuncsIn(mp) {
+		if f.Body == nil || f.Decl == nil {
+			continue
+		}
+		hasRem := false
+		walkNoLit(f.Body, func(q ast.Node) bool {
+			if b, ok := q.(*ast.BinaryExpr); ok && b.Op == token.REM {
+				hasRem = true
+			}
+			return true
+		})
+		if hasRem {
+			continue
+		}
+		walkNoLit(f.Body, func(q ast.Node) bool {
+			as, ok := q.(*ast.AssignStmt)
+			if !ok || as.Tok != token.ASSIGN || len(as.Lhs) != 1 || len(as.Rhs) != 1 || identOf(as.Lhs[0]) == nil {
+				return true
+			}
+			if v, ok := constStr(as.Rhs[0]); !ok || v != "one" {
+				return true
+			}
+			catVar := info.Uses[identOf(as.Lhs[0])]
+			if catVar == nil {
+				return true
+			}
+			found++
+			c.fn(f)
+			key := f.Name + "/cardinal-categories"
+			// the conditions on the way down to the assignment
+			type guard struct {
+				cond  ast.Expr
+				holds bool
+				tag   ast.Expr // case of a switch with tag: tag == cond
+			}
+			var guards []guard
+			var child ast.Node = as
+			for p := w.parent[as]; p != nil && p != ast.Node(f.Body); child, p = p, w.parent[p] {
+				switch y := p.(type) {
+				case *ast.IfStmt:
+					if child == ast.Node(y.Body) {
+						guards = append(guards, guard{cond: y.Cond, holds: true})
+					} else if child == y.Else {
+						guards = append(guards, guard{cond: y.Cond, holds: false})
+					}
+				case *ast.CaseClause:
+					sw, _ := w.parent[w.parent[y]].(*ast.SwitchStmt)
+					if sw == nil || len(y.List) != 1 {
+						c.ob("C13.R7", key, w.Pos(as.Pos()), false, "the category \"one\" is chosen in a clause the rule cannot evaluate")
+						return true
+					}
+					guards = append(guards, guard{cond: y.List[0], holds: true, tag: sw.Tag})
+				case *ast.ForStmt, *ast.RangeStmt:
+					c.ob("C13.R7", key, w.Pos(as.Pos()), false, "the category \"one\" is chosen inside a loop")
+					return true
+				}
+			}
+			// single-assignment locals defined from call-free expressions are looked through
+			for obj, das := range w.ent(f).assigns {
+				if len(das) != 1 || obj == catVar {
+					continue
+				}
+				if a, ok := das[0].(*ast.AssignStmt); ok && len(a.Lhs) == len(a.Rhs) {
+					for i, l := range a.Lhs {
+						if id := identOf(l); id != nil && (info.Defs[id] == obj || info.Uses[id] == obj) && callFree(a.Rhs[i]) {
+							evalLocalDefs[obj] = a.Rhs[i]
+						}
+					}
+				}
+			}
+			evalLeaf = func(e ast.Expr, n int64) (int64, bool) {
+				if id := identOf(e); id != nil && evalLocalDefs[info.Uses[id]] != nil {
+					return 0, false
+				}
+				tv, ok := info.Types[e]
+				if !ok || tv.Value != nil {
+					return 0, false
+				}
+				if nt, ok := tv.Type.(*types.Named); ok && nt.Obj().Name() == "ValueType" && intType >= 0 {
+					return intType, true
+				}
+				if b, ok := tv.Type.Underlying().(*types.Basic); ok && b.Kind() == types.Int {
+					return n, true
+				}
+				return 0, false
+			}
+			defer func() { evalLeaf = nil }()
+			var wrong []string
+			for n := int64(0); n < 1000 && len(wrong) < 4; n++ {
+				all := true
+				for _, g := range guards {
+					var holds bool
+					if g.tag != nil {
+						a, _, ok1 := evalIntExpr(info, g.tag, nil, n)
+						b, _, ok2 := evalIntExpr(info, g.cond, nil, n)
+						if !ok1 || !ok2 {
+							c.ob("C13.R7", key, w.Pos(as.Pos()), false, "a condition on the way to the category \"one\" is not a pure expression over the value's type and integer: it cannot be evaluated")
+							evalLeaf = nil
+							return true
+						}
+						holds = a == b
+					} else {
+						_, b, ok := evalIntExpr(info, g.cond, nil, n)
+						if !ok {
+							c.ob("C13.R7", key, w.Pos(as.Pos()), false, "a condition on the way to the category \"one\" is not a pure expression over the value's type and integer: it cannot be evaluated")
+							evalLeaf = nil
+							return true
+						}
+						holds = b == g.holds
+					}
+					if !holds {
+						all = false
+					}
+				}
+				if all != (n == 1) {
+					wrong = append(wrong, itoa(int(n))+" -> "+map[bool]string{true: "one", false: "other"}[all])
+				}
+			}
+			evalLeaf = nil
+			// the value before: "other"
+			before := "?"
+			for _, a := range w.ent(f).assigns[catVar] {
+				if a.Pos() >= as.Pos() {
+					continue
+				}
+				switch d := a.(type) {
+				case *ast.AssignStmt:
+					for i, l := range d.Lhs {
+						if id := identOf(l); id != nil && (info.Defs[id] == catVar || info.Uses[id] == catVar) && len(d.Rhs) == len(d.Lhs) {
+							before, _ = constStr(d.Rhs[i])
+						}
+					}
+				case *ast.ValueSpec:
+					for i, nm := range d.Names {
+						if info.Defs[nm] == catVar && i < len(d.Values) {
+							before, _ = constStr(d.Values[i])
+						}
+					}
+				}
+			}
+			switch {
+			case len(wrong) > 0:
+				c.ob("C13.R7", key, w.Pos(as.Pos()), false, "the cardinal category is wrong for the integers "+strings.Join(wrong, ", ")+" (English: one for 1, other otherwise)")
+			case before != "other":
+				c.ob("C13.R7", key, w.Pos(as.Pos()), false, "the category held when the value is not 1 is \""+before+"\", not \"other\"")
+			default:
+				c.ob("C13.R7", key, w.Pos(as.Pos()), true, "\"one\" is chosen for the integer 1 and for no other integer in 0…999; \"other\" otherwise")
+			}
+			return true
+		})
+	}
+	if found == 0 {
+		c.undecided("C13.R7", "no cardinal category selection found (an assignment of the category \"one\" outside remainder arithmetic)")
+	}
 }
